@@ -248,6 +248,31 @@ def run_shard(desc, ctx):
             for key, value in sorted(tbl.items()):
                 for scope in (None, '@@global', '@@section', '@@property', '@@value', 'padding'):
                     mon.key_case(key, value, syntax, scope, 'key' if scope in (None, '@@global') else 'scope')
+            # a keyword that is a function, typed once WITH arguments and once in full: the second mention is the listed keyword again, whatever was
+            # typed before it - in the same abbreviation or in an earlier call through the same cache
+            for key, value in sorted(tbl.items()):
+                kind, prop, alts = classify(value)
+                if kind != 'property':
+                    continue
+                for alt in alts:
+                    m = re.match(r'([a-z]+)\(', alt)
+                    if not m or not re.fullmatch(r'[a-z]+', key):
+                        continue
+                    fn = m.group(1)
+                    ctx.ev('keyword:function-twice')
+                    ctx.mon('oracle:keyword')
+                    alone = mon.run('%s:%s' % (key, fn), syntax)
+                    both = mon.run('%s:%s(2)+%s:%s' % (key, fn, key, fn), syntax)
+                    again = mon.run('%s:%s' % (key, fn), syntax)
+                    case = {'kind': 'function-twice', 'key': key, 'function': fn, 'syntax': syntax}
+                    if alone[0] != 'ok' or both[0] != 'ok' or again[0] != 'ok':
+                        continue        # (a keyword the grammar cannot take: judged elsewhere)
+                    second = both[1].split('\n')[-1] if '\n' in both[1] else None
+                    if second is not None and norm(second) != norm(alone[1]):
+                        ctx.violation('keyword-changed-by-an-earlier-mention', case, {'alone': norm(alone[1]), 'second_of_two': norm(second)})
+                    elif norm(again[1]) != norm(alone[1]) or RE_MARK.findall(again[1]) != RE_MARK.findall(alone[1]):
+                        ctx.violation('keyword-changed-by-an-earlier-call', case, {'before': alone[1][:120], 'after': again[1][:120]})
+                    break
             # a scope restricts EVERY property of an abbreviation alike: two keys of the permitted kind joined by `+` give their two lines
             # (the second key before, equal to and after the first in sort order)
             by_kind = {'property': [], 'raw': []}
